@@ -276,7 +276,7 @@ where
   F: Send + Sync + Fn(f64, f64) -> Y,
   Y: Into<Complex<f64>>,
 {
-  assert!(divs.is_even());
+  let divs = divs + divs % 2; // nearest even, odd counts are rounded up as in `simpson`
   assert!(divs >= 4);
 
   let steps = divs + 1;
